@@ -24,7 +24,8 @@ EPOCH = datetime.datetime.fromtimestamp(0, tz=UTC)
 
 META = dict(
     engine="barsim", level="exploration",
-    rule=("aggregator runs (about 70%): bar duration in {1,5,60,3600}, flush_delay in {0,0.25,0.5,2}, skip_first_bar on/off, "
+    rule=("aggregator runs (about 55%; another 15% feed the aggregator through the real Bitstamp Exchange client from a fake "
+          "websocket peer over SimNet): bar duration in {1,5,60,3600}, flush_delay in {0,0.25,0.5,2}, skip_first_bar on/off, "
           "3-8 windows, trades stamped at microsecond resolution with bias to window boundaries (first instant, last "
           "millisecond, sub-millisecond tail, exact boundary), arrival latency {0, 10 ms, 0.2 s, just before / after the "
           "flush, 1.5 windows}, timers up to 50 ms late; CSV runs: 1-3 generated files (UTF-8 with/without BOM, UTF-16/32 "
@@ -32,14 +33,15 @@ META = dict(
           "Bitstamp / Yahoo bar sources through the backtesting dispatcher. Non-trivial: a window with a trade in its "
           "last millisecond or a late trade (aggregator), or a file that is not plain UTF-8 / not sorted (CSV). "
           "Distinct by (kind, config, per-window trade placement classes)."),
-    components=dict(real=["basana.core.bar.RealTimeTradesToBar", "Bar", "BarEvent", "RealtimeDispatcher", "BacktestingDispatcher",
+    components=dict(real=["basana.external.bitstamp.exchange.Exchange.subscribe_to_bar_events (+ public websocket client, trades)",
+                          "basana.core.bar.RealTimeTradesToBar", "Bar", "BarEvent", "RealtimeDispatcher", "BacktestingDispatcher",
                           "basana.core.event_sources.csv", "external.common.csv.bars.RowParser", "binance.csv.BarSource",
                           "bitstamp.csv.BarSource", "yahoo.bars.CSVBarSource"],
                     simulated=["trade feed and its latency", "dt.utc_now / loop clock", "timer lateness", "CSV file content"]),
     assumptions=["guard band of 1 ms + injected lateness around each flush instant: inside it either outcome is accepted",
                  "BOM-less UTF-16/32 files are outside the generated domain (no reader can identify them without guessing)",
                  "the CSV clause is input generation riding on the simulated dispatcher"],
-    probes_expected=["trade_in_last_ms", "trade_in_sub_ms_tail", "trade_on_boundary", "late_trade", "out_of_order_trade",
+    probes_expected=["websocket_fed_run", "trade_in_last_ms", "trade_in_sub_ms_tail", "trade_on_boundary", "late_trade", "out_of_order_trade",
                      "empty_window", "csv_bom_utf16", "csv_bom_utf32", "csv_unsorted", "csv_zero_volume", "csv_duplicate_timestamp", "late_timer"],
     states_measure="distinct (pending trades, windows flushed) pairs at push time",
 )
@@ -51,8 +53,11 @@ def wbegin(dt_, dur):
 
 
 def run(tape, prop, tier):
-    if tape.chance(0.3):
+    k = tape.weighted([(11, "agg"), (6, "csv"), (3, "ws")])
+    if k == "csv":
         return run_csv(tape, prop, tier)
+    if k == "ws":
+        return run_ws(tape, prop, tier)
     return run_agg(tape, prop, tier)
 
 
@@ -158,6 +163,10 @@ def run_agg(tape, prop, tier):
     except SimLimit as e_:
         out["o"] = f"limit {e_}"
 
+    return judge_agg(res, out, dur, fd, skip, late, late_max, nwin, trades_spec, pushed, emitted, errs, "agg")
+
+
+def judge_agg(res, out, dur, fd, skip, late, late_max, nwin, trades_spec, pushed, emitted, errs, kind, guard_extra=0.0):
     def V(clause, msg):
         res.viol(PROP, clause, clause, msg + f" [duration={dur} flush_delay={fd} skip_first_bar={skip}]")
 
@@ -167,7 +176,7 @@ def run_agg(tape, prop, tier):
         return res
     start = out["start"]
     firstw = wbegin(start, dur)
-    guard = 1e-3 + (late_max if late else 0.0)
+    guard = 1e-3 + (late_max if late else 0.0) + guard_extra
     bars = {}
     last_when = None
     for wall, ev in emitted:
@@ -275,13 +284,151 @@ def run_agg(tape, prop, tier):
     if nwin_empty:
         res.probes["empty_window"] += 1
     res.nontrivial = bool(res.probes["trade_in_last_ms"] or res.probes["late_trade"])
-    res.sig = digest_of(("agg", dur, fd, skip, [(w, pl, lt) for (w, pl, fr, lt) in trades_spec]))
+    res.sig = digest_of((kind, dur, fd, skip, [(w, pl, lt) for (w, pl, fr, lt) in trades_spec]))
     res.stats["trades"] += len(pushed)
     res.stats["bars"] += len(bars)
     res.stats["reports"] += len(errs)
     res.digest = digest_of(([(p["when"], p["at"], p["reported"]) for p in pushed],
                             [(w_, e_.when, e_.bar.volume) for w_, e_ in emitted], errs))
     return res
+
+
+
+# ------------------------------------------------------------------ live trades over the (simulated) Bitstamp websocket
+def run_ws(tape, prop, tier):
+    """Exchange.subscribe_to_bar_events of the Bitstamp client: trades arrive as websocket messages from a fake peer
+    over SimNet, become TradeEvents through the realtime dispatcher and are aggregated by RealTimeTradesToBar."""
+    import json as _json
+    import logging
+    import random
+    res = Result()
+    dur = tape.choice([5, 1, 60])
+    fd = tape.choice([1.0, 0.5, 0.25, 2.0])
+    skip = tape.chance(0.5)
+    nwin = 3 + tape.draw(4)
+    start_off = tape.draw(1000) / 1000.0 * dur
+    net_seed = tape.subseed()
+    trades_spec = []
+    for w in range(nwin):
+        for _ in range(tape.choice([1, 0, 2, 4])):
+            place = tape.weighted([(6, "uniform"), (1, "first"), (1, "last_us"), (2, "sub_ms_tail"), (1, "last_ms")])
+            frac = tape.draw(10 ** 6)
+            lat = tape.weighted([(6, "none"), (2, "200ms"), (1, "after_flush"), (1, "very_late")])
+            trades_spec.append((w, place, frac, lat))
+    res.sample = dict(kind="bitstamp-websocket", bar_duration=dur, flush_delay=fd, skip_first_bar=skip, windows=nwin,
+                      start_offset=start_off, trades=trades_spec[:12])
+    wall0 = 1_700_000_000.0 - (1_700_000_000 % dur) + start_off
+    pushed, emitted, errs = [], [], []
+    out = {}
+
+    class Cap(logging.Handler):
+        def emit(self, record):
+            errs.append(str(record.msg))
+
+    async def main(loop):
+        import aiohttp
+        from aiohttp import web
+        import basana as bs
+        from basana.core import dt as bdt
+        from basana.external.bitstamp import exchange as bex
+        from ..net import SimNet, SimConnector
+        rng = random.Random(net_seed)
+        conns = []
+
+        async def handler(request):
+            ws = web.WebSocketResponse()
+            await ws.prepare(request)
+            conns.append(ws)
+            async for msg in ws:
+                if msg.type == aiohttp.WSMsgType.TEXT:
+                    m = _json.loads(msg.data)
+                    if m.get("event") == "bts:subscribe":
+                        await ws.send_str(_json.dumps({"event": "bts:subscription_succeeded", "channel": m["data"]["channel"], "data": {}}))
+            return ws
+        server = web.Server(handler)
+        net = SimNet(loop, rng, {"ws.sim": server}, min_latency=0.001, jitter=0.004)
+        sess = aiohttp.ClientSession(connector=SimConnector(net))
+        d = bs.realtime_dispatcher(max_concurrent=5)
+        d.idle_sleep = max(0.01, min(0.05, dur / 200.0))
+        cfg = {"api": {"http": {"base_url": "http://api.sim/"}, "websockets": {"base_url": "http://ws.sim/", "heartbeat": 30}}}
+        e = bex.Exchange(d, session=sess, config_overrides=cfg)
+        pair = bs.Pair("BTC", "USD")
+
+        async def on_bar(ev):
+            emitted.append((loop.wall(), ev))
+
+        async def on_trade(ev):
+            # subscribed after the aggregator: runs right after its push_trade for the same event
+            n_before = on_trade.nerr
+            on_trade.nerr = len(errs)
+            pushed.append(dict(when=ev.trade.datetime, price=ev.trade.price, amount=ev.trade.amount, at=loop.wall(),
+                               place="ws", rejected_at_push=len(errs) > n_before))
+        on_trade.nerr = 0
+        e.subscribe_to_bar_events(pair, dur, on_bar, skip_first_bar=skip, flush_delay=fd)
+        e.subscribe_to_public_trade_events(pair, on_trade)
+        start = bdt.utc_now()
+        first_begin = wbegin(start, dur)
+        out["start"] = start
+        trades = []
+        seen = set()
+        for i, (w, place, frac, lat) in enumerate(trades_spec):
+            b = first_begin + datetime.timedelta(seconds=w * dur)
+            dur_us = dur * 10 ** 6
+            off_us = {"uniform": frac * dur_us // 10 ** 6, "first": 0, "last_us": dur_us - 1,
+                      "sub_ms_tail": dur_us - 1 - frac % 999, "last_ms": dur_us - 1000}[place]
+            ts = b + datetime.timedelta(microseconds=off_us)
+            while ts in seen:
+                ts += datetime.timedelta(microseconds=1)
+            seen.add(ts)
+            if (ts - start).total_seconds() < 0.5:
+                continue            # the connection is not up yet
+            lat_s = {"none": 0.0, "200ms": 0.2, "after_flush": fd + 0.3 + (dur - off_us / 1e6), "very_late": dur * 1.5 + fd}[lat]
+            trades.append((ts, lat_s, i))
+        trades.sort(key=lambda x: (x[0] - EPOCH).total_seconds() + x[1])
+
+        async def feeder():
+            for (ts, lat_s, i) in trades:
+                at = (ts - EPOCH).total_seconds() + lat_s
+                delay = at - loop.wall()
+                if delay > 0:
+                    await asyncio.sleep(delay)
+                us = (ts - EPOCH) // datetime.timedelta(microseconds=1)
+                msg = {"event": "trade", "channel": "live_trades_btcusd",
+                       "data": {"id": i, "amount": float(1 + i / 1000), "amount_str": str(D(1) + D(i) / 1000), "price": 100 + i,
+                                "price_str": str(100 + i), "type": 0, "microtimestamp": str(us), "timestamp": str(us // 10 ** 6),
+                                "buy_order_id": 1, "sell_order_id": 2}}
+                for ws in conns[-1:]:
+                    if not ws.closed:
+                        await ws.send_str(_json.dumps(msg))
+            await asyncio.sleep(dur * 2 + fd + 1)
+            d.stop()
+        ft = asyncio.ensure_future(feeder())
+        try:
+            await d.run(stop_signals=[])
+            out["o"] = "returned"
+        except (Exception, asyncio.CancelledError) as e_:
+            out["o"] = f"raised {type(e_).__name__}: {e_}"
+        ft.cancel()
+        await sess.close()
+        await server.shutdown(0.5)
+        return loop
+
+    cap = Cap(level=logging.ERROR)
+    blog = logging.getLogger("basana.core.bar")
+    blog.addHandler(cap)
+    try:
+        loop = run_sim(main, salt=0, wall_offset=wall0, max_steps=4_000_000, wall_limit=20)
+        res.vtime = loop.time()
+        res.steps = loop.steps
+    except SimDeadlock:
+        out["o"] = "deadlock"
+    except SimLimit as e_:
+        out["o"] = f"limit {e_}"
+    finally:
+        blog.removeHandler(cap)
+    res.probes["websocket_fed_run"] += 1
+    # a trade is pushed one network hop and one dispatcher poll after the peer sent it; "at" is the push instant itself
+    return judge_agg(res, out, dur, fd, skip, False, 0.0, nwin, trades_spec, pushed, emitted, errs, "ws")
 
 
 # ------------------------------------------------------------------ CSV
